@@ -64,6 +64,12 @@ func c10Exec(cs fw.Case) *fw.Fail {
 	fw.Tally("jfalse_both_sides", int64(st.JFalseSites))
 	fw.Tally("instructions", int64(st.Instrs))
 	fw.Tally("traces_validated", 1)
+	switch {
+	case st.MaxJump == 65535:
+		fw.TallyOutcome("jump-operand-65535")
+	case st.MaxJump >= 32768:
+		fw.TallyOutcome("jump-operand>=32768")
+	}
 	if err != nil {
 		return fw.Failf("structurally valid bytecode on every control-flow path", "%v", err)
 	}
@@ -165,6 +171,9 @@ func init() {
 			var v []string
 			if m.Outcomes["verified-with-branches"] == 0 || m.Outcomes["verified-straight-line"] == 0 {
 				v = append(v, "vacuous: no program with / without branches verified")
+			}
+			if m.Outcomes["jump-operand-65535"] == 0 || m.Outcomes["jump-operand>=32768"] == 0 {
+				v = append(v, "vacuous: no program with a jump operand of 65535 / above 32767 was verified")
 			}
 			if m.Counters["jfalse_both_sides"] == 0 {
 				v = append(v, "vacuous: no JFALSE site explored")
